@@ -48,6 +48,22 @@ def roundtrip(dbx, dec, enc, d, payload, nb, acc, label):
         return
     parts = text.split()
     out = bytes.fromhex(parts[2]) if len(parts) > 2 else b""      # an all-zero payload of a definition without Length is empty
+    if acc.evaluations % 4 == 0:
+        # the application does what it likes with the message it was handed (here: blanks every field); the same payload
+        # decoded once more - by this decoder and by a new one - must encode to the same bytes as the first time
+        for f_ in m.fields:
+            f_.value = None
+            f_.raw_value = None
+        for dec2 in (dec, NMEA2000Decoder()):
+            acc.count("second_decodes_after_editing_the_first_message")
+            try:
+                text2 = enc.encode_actisense(dec2.decode_basic_string(line, already_combined=True))
+            except Exception as e:  # noqa: BLE001
+                text2 = f"{type(e).__name__}: {e}"
+            if text2 != text:
+                acc.violation("second-decode-of-same-payload-differs", f"{d.id}: after the first decoded message was edited by its owner, the same payload decodes / re-encodes as "
+                              f"{text2[:80]!r} instead of {text[:80]!r}", w)
+                break
     acc.case((d.id, payload))
     acc.count("roundtrips_compared")
     acc.cover("definitions", d.id)
